@@ -28,7 +28,8 @@ type VerifToken struct {
 
 // VerifTokens runs the front-end lexer (the one Parse uses) over data and
 // returns the LITERAL and CLASS_CHAR tokens, which are the ones the parser
-// actions hand to unescape.
+// actions hand to unescape, and the CLASS_DASH tokens between them, which
+// on_char_class pairs on.
 func VerifTokens(data []byte) (toks []VerifToken) {
 	fset := gotoken.NewFileSet()
 	file := fset.AddFile("verif.lox", -1, len(data))
@@ -42,7 +43,7 @@ func VerifTokens(data []byte) (toks []VerifToken) {
 		if typ == EOF {
 			break
 		}
-		if typ == LITERAL || typ == CLASS_CHAR {
+		if typ == LITERAL || typ == CLASS_CHAR || typ == CLASS_DASH {
 			toks = append(toks, VerifToken{Type: _TokenToString(typ), Str: append([]byte(nil), tok.Str...)})
 		}
 	}
